@@ -291,15 +291,21 @@ def _script(r, client, world, counter):
                     add("cir.ssm", {"cir": P(cir)})
         elif g == "td":
             h = add("cir.td", {"cir": P(cir), "w_max": r.choice([0, 50.0, 400.0, 1000.0])})
-            q = r.choice(["voltage", "current", "potential", "power"])
-            i = "__nope__" if bad else (r.choice(cnodes) if q == "potential" else r.choice(cids))
-            fn = add("tdsol.fn", {"sol": h, "q": q, "id": i})
-            # split-phase: something else of this client happens between obtaining and evaluating
-            if r.random() < 0.5:
-                add("cir.freqs", {"cir": P(cir), "w_max": 50.0})
-            add("fn.eval", {"fn": fn, "t": P(r.choice(["tgrid", "tgrid", "tgrid0", "tgrid1"]))})
+            fns = []
+            for _ in range(r.randint(1, 3)):
+                q = r.choice(["voltage", "current", "potential", "power", "voltage"])
+                i = "__nope__" if bad else (r.choice(cnodes) if q == "potential" else r.choice(cids))
+                fns.append(add("tdsol.fn", {"sol": h, "q": q, "id": i}))
+                # split-phase: other work happens between obtaining a time function and evaluating it
+                if r.random() < 0.4:
+                    add("cir.freqs", {"cir": P(cir), "w_max": 50.0})
+                if r.random() < 0.5:
+                    add("fn.eval", {"fn": r.choice(fns), "t": P(r.choice(["tgrid", "tgrid", "tgrid0", "tgrid1"]))})
+            # every function obtained is evaluated (again) after all the later queries on the same solution object
+            for fn in fns:
+                add("fn.eval", {"fn": fn, "t": P(r.choice(["tgrid", "tgrid1"]))})
             if r.random() < 0.3:
-                add("fn.eval", {"fn": fn, "t": {"lit": 0.25}})
+                add("fn.eval", {"fn": fns[0], "t": {"lit": 0.25}})
         elif g == "tran":
             a = {"cir": P(cir), "tin": P(r.choice(["tgrid", "tgrid", "tgrid1"])), "inputs": P(cir + "_inputs")}
             if r.random() < 0.3:
@@ -337,7 +343,7 @@ def _script(r, client, world, counter):
             else:
                 add("sig.step", {"t": P("tgrid"), "t0": 0.01, "x0": 0, "x1": 2})
         elif g == "ld":
-            k = r.choice(["load_network", "to_complex", "gen_component", "undictify_circuit", "roundtrip", "undictify_all", "dictify_all"])
+            k = r.choice(["load_network", "to_complex", "gen_component", "undictify_circuit", "roundtrip", "undictify_all", "dictify_all", "flat"])
             if k == "load_network":
                 h = add("ld.load_network", {"desc": P("desc0")})
                 if r.random() < 0.6:
@@ -357,6 +363,8 @@ def _script(r, client, world, counter):
                 fmt = r.choice(["json", "yaml"])
                 t = add("ld.serialize", {"doc": P("doc0"), "fmt": fmt})
                 add("ld.deserialize", {"text": t, "fmt": fmt})
+            elif k == "flat":
+                add(r.choice(["ld.undictify_flat", "ld.dictify_flat"]), {"doc": P(r.choice(["ndoc0", "doc0"]))})
             elif k == "undictify_all":
                 add("ld.undictify_all", {"doc": P("ndoc0")})
             else:
